@@ -70,3 +70,134 @@ Qed.
 Example hex_encode_example :
   option_map (map Z.to_N) (src_hex_encode 5 (arrb [0; 171; 255]%N) 3) = Some [48; 48; 97; 98; 102; 102]%N.
 Proof. vm_compute. reflexivity. Qed.
+
+(* ---- b64_encode ------------------------------------------------------------------------------------------------
+   _ST_PRIVATE::b64_encode(output, data, size) as TRANSLATED from the current headers: the three-bytes-at-a-time loop
+   (sp[0..2], size -= 3, sp += 3), the switch on the 0/1/2 bytes left with its '=' padding, the function-local table
+   b64_chars as found in the function's own text, and the ST_ASSERT of the default group (a stored ext_abort_unit).
+   For inputs of any length and every sufficient fuel it stores exactly the characters of Codec/Model.b64_encode_raw;
+   in particular the default group is never reached. *)
+Definition local_b64 : list Z := [65; 66; 67; 68; 69; 70; 71; 72; 73; 74; 75; 76; 77; 78; 79; 80; 81; 82; 83; 84; 85; 86; 87; 88; 89; 90; 97; 98; 99; 100; 101; 102; 103; 104; 105; 106; 107; 108; 109; 110; 111; 112; 113; 114; 115; 116; 117; 118; 119; 120; 121; 122; 48; 49; 50; 51; 52; 53; 54; 55; 56; 57; 43; 47; 0].
+Definition q0 (v0 : Z) : Z := nth (Z.to_nat (wraps 32 (Z.shiftr (wraps 32 ((fun i_ => wrapu 8 i_) v0)) 2))) local_b64 0.
+Definition q1 (v0 v1 : Z) : Z := nth (Z.to_nat (wraps 32 (Z.lor (wraps 32 (Z.shiftl (wraps 32 (Z.land (wraps 32 ((fun i_ => wrapu 8 i_) v0)) 3)) 4)) (wraps 32 (Z.shiftr (wraps 32 (Z.land (wraps 32 ((fun i_ => wrapu 8 i_) v1)) 240)) 4))))) local_b64 0.
+Definition q2 (v1 v2 : Z) : Z := nth (Z.to_nat (wraps 32 (Z.lor (wraps 32 (Z.shiftl (wraps 32 (Z.land (wraps 32 ((fun i_ => wrapu 8 i_) v1)) 15)) 2)) (wraps 32 (Z.shiftr (wraps 32 (Z.land (wraps 32 ((fun i_ => wrapu 8 i_) v2)) 192)) 6))))) local_b64 0.
+Definition q3 (v2 : Z) : Z := nth (Z.to_nat (wraps 32 (Z.land (wraps 32 ((fun i_ => wrapu 8 i_) v2)) 63))) local_b64 0.
+Definition q1t (v0 : Z) : Z := nth (Z.to_nat (wraps 32 (Z.shiftl (wraps 32 (Z.land (wraps 32 ((fun i_ => wrapu 8 i_) v0)) 3)) 4))) local_b64 0.
+Definition q2t (v1 : Z) : Z := nth (Z.to_nat (wraps 32 (Z.shiftl (wraps 32 (Z.land (wraps 32 ((fun i_ => wrapu 8 i_) v1)) 15)) 2))) local_b64 0.
+
+Lemma b64_loop_S f p a n sp out : src_b64_encode_loop1 (S f) p a n sp out =
+  (if z2b (b2z (Z.gtb n (wrapu 64 2)))
+   then src_b64_encode_loop1 f p a (wrapu 64 (wrapu 64 (wrapu 64 n - wrapu 64 3))) (sp + 3)
+          ((((out ++ [q0 (p (sp + 0))]) ++ [q1 (p (sp + 0)) (p (sp + 1))]) ++ [q2 (p (sp + 1)) (p (sp + 2))]) ++ [q3 (p (sp + 2))])
+   else if Z.eqb n 2 then Some ((((out ++ [q0 (p (sp + 0))]) ++ [q1 (p (sp + 0)) (p (sp + 1))]) ++ [q2t (p (sp + 1))]) ++ [61])
+   else if Z.eqb n 1 then Some ((((out ++ [q0 (p (sp + 0))]) ++ [q1t (p (sp + 0))]) ++ [61]) ++ [61])
+   else if Z.eqb n 0 then Some out
+   else if z2b (b2z (negb (z2b 0))) then Some (out ++ [ext_abort_unit]) else Some out).
+Proof. cbv beta iota zeta delta [src_b64_encode_loop1 q0 q1 q2 q3 q1t q2t local_b64]. reflexivity. Qed.
+
+Definition b64_one_agrees (c : N) : bool :=
+  match tblN b64_chars (N.shiftr c 2), tblN b64_chars (N.land c 63),
+        tblN b64_chars (N.shiftl (N.land c 3) 4), tblN b64_chars (N.shiftl (N.land c 15) 2) with
+  | Ok x0, Ok x3, Ok x1, Ok x2 =>
+      (Z.to_N (q0 (schar c)) =? x0)%N && (Z.to_N (q3 (schar c)) =? x3)%N &&
+      (Z.to_N (q1t (schar c)) =? x1)%N && (Z.to_N (q2t (schar c)) =? x2)%N
+  | _, _, _, _ => false
+  end.
+Lemma b64_one_sweep : all_below 8 b64_one_agrees = true. Proof. vm_compute. reflexivity. Qed.
+Lemma b64_one c : (c < 256)%N ->
+  tblN b64_chars (N.shiftr c 2) = Ok (Z.to_N (q0 (schar c))) /\ tblN b64_chars (N.land c 63) = Ok (Z.to_N (q3 (schar c))) /\
+  tblN b64_chars (N.shiftl (N.land c 3) 4) = Ok (Z.to_N (q1t (schar c))) /\
+  tblN b64_chars (N.shiftl (N.land c 15) 2) = Ok (Z.to_N (q2t (schar c))).
+Proof.
+  intros H. pose proof (all_below_spec 8 b64_one_agrees b64_one_sweep c H) as E. unfold b64_one_agrees in E.
+  destruct (tblN b64_chars (N.shiftr c 2)) as [x0| | |]; try discriminate.
+  destruct (tblN b64_chars (N.land c 63)) as [x3| | |]; try discriminate.
+  destruct (tblN b64_chars (N.shiftl (N.land c 3) 4)) as [x1| | |]; try discriminate.
+  destruct (tblN b64_chars (N.shiftl (N.land c 15) 2)) as [x2| | |]; try discriminate.
+  apply andb_true_iff in E. destruct E as [E E2]. apply andb_true_iff in E. destruct E as [E E1].
+  apply andb_true_iff in E. destruct E as [E0 E3].
+  apply N.eqb_eq in E0. apply N.eqb_eq in E1. apply N.eqb_eq in E2. apply N.eqb_eq in E3. subst. repeat split; reflexivity.
+Qed.
+
+Definition b64_two_agrees (a b : N) : bool :=
+  match tblN b64_chars (N.lor (N.shiftl (N.land a 3) 4) (N.shiftr (N.land b 240) 4)),
+        tblN b64_chars (N.lor (N.shiftl (N.land a 15) 2) (N.shiftr (N.land b 192) 6)) with
+  | Ok x1, Ok x2 => (Z.to_N (q1 (schar a) (schar b)) =? x1)%N && (Z.to_N (q2 (schar a) (schar b)) =? x2)%N
+  | _, _ => false
+  end.
+Lemma b64_two_sweep : all_below2 8 8 b64_two_agrees = true. Proof. vm_compute. reflexivity. Qed.
+Lemma b64_two a b : (a < 256)%N -> (b < 256)%N ->
+  tblN b64_chars (N.lor (N.shiftl (N.land a 3) 4) (N.shiftr (N.land b 240) 4)) = Ok (Z.to_N (q1 (schar a) (schar b))) /\
+  tblN b64_chars (N.lor (N.shiftl (N.land a 15) 2) (N.shiftr (N.land b 192) 6)) = Ok (Z.to_N (q2 (schar a) (schar b))).
+Proof.
+  intros Ha Hb. pose proof (all_below2_spec 8 8 b64_two_agrees b64_two_sweep a b Ha Hb) as E. unfold b64_two_agrees in E.
+  destruct (tblN b64_chars (N.lor (N.shiftl (N.land a 3) 4) (N.shiftr (N.land b 240) 4))) as [x1| | |]; try discriminate.
+  destruct (tblN b64_chars (N.lor (N.shiftl (N.land a 15) 2) (N.shiftr (N.land b 192) 6))) as [x2| | |]; try discriminate.
+  apply andb_true_iff in E. destruct E as [E1 E2]. apply N.eqb_eq in E1. apply N.eqb_eq in E2. subst. split; reflexivity.
+Qed.
+
+Lemma all_lt_cons c t : all_lt 256 (c :: t) = true -> (c < 256)%N /\ all_lt 256 t = true.
+Proof. unfold all_lt. cbn [forallb]. intros A. apply andb_true_iff in A. destruct A as [A1 A2]. split; [lia|exact A2]. Qed.
+
+Lemma wrapu64_small x : 0 <= x < 18446744073709551616 -> wrapu 64 x = x.
+Proof. intros H. unfold wrapu. change (2 ^ 64) with 18446744073709551616. apply Z.mod_small. exact H. Qed.
+
+Theorem b64_loop_matches : forall mf l out i p a fs, all_lt 256 l = true ->
+  (forall k, (k < length l)%nat -> p (i + Z.of_nat k) = schar (nth k l 0%N)) ->
+  (length l < fs)%nat -> (length l < mf)%nat -> Z.of_nat (length l) < 18446744073709551616 ->
+  exists ws, src_b64_encode_loop1 fs p a (Z.of_nat (length l)) i out = Some (out ++ ws) /\ b64_encode_raw mf l = Ok (map Z.to_N ws).
+Proof.
+  induction mf as [|mf IH]; intros l out i p a fs A R Hfs Hmf Hb; [lia|].
+  destruct fs as [|fs]; [lia|]. rewrite b64_loop_S. rewrite (wrapu64_small 2), (wrapu64_small 3) by lia.
+  destruct l as [|s0 [|s1 [|s2 t]]].
+  - exists []. split; [cbn; rewrite app_nil_r; reflexivity|reflexivity].
+  - destruct (all_lt_cons _ _ A) as [H0 _]. destruct (b64_one s0 H0) as (E0 & _ & E1 & _).
+    pose proof (R 0%nat ltac:(cbn; lia)) as R0. cbn [nth Z.of_nat] in R0.
+    exists [q0 (schar s0); q1t (schar s0); 61; 61]. split.
+    + cbn [length Z.of_nat Pos.of_succ_nat Z.gtb Z.compare Pos.compare Pos.compare_cont b2z z2b Z.eqb Pos.eqb negb].
+      rewrite R0. rewrite <- !app_assoc. reflexivity.
+    + cbn [b64_encode_raw]. rewrite E0, E1. reflexivity.
+  - destruct (all_lt_cons _ _ A) as [H0 A1]. destruct (all_lt_cons _ _ A1) as [H1 _].
+    destruct (b64_one s0 H0) as (E0 & _ & _ & _). destruct (b64_one s1 H1) as (_ & _ & _ & E2). destruct (b64_two s0 s1 H0 H1) as [E1 _].
+    pose proof (R 0%nat ltac:(cbn; lia)) as R0. pose proof (R 1%nat ltac:(cbn; lia)) as R1. cbn [nth Z.of_nat Pos.of_succ_nat] in R0, R1.
+    exists [q0 (schar s0); q1 (schar s0) (schar s1); q2t (schar s1); 61]. split.
+    + cbn [length Z.of_nat Pos.of_succ_nat Pos.succ Z.gtb Z.compare Pos.compare Pos.compare_cont b2z z2b Z.eqb Pos.eqb negb].
+      rewrite R0, R1. rewrite <- !app_assoc. reflexivity.
+    + cbn [b64_encode_raw]. rewrite E0, E1, E2. reflexivity.
+  - destruct (all_lt_cons _ _ A) as [H0 A1]. destruct (all_lt_cons _ _ A1) as [H1 A2]. destruct (all_lt_cons _ _ A2) as [H2 At].
+    destruct (b64_one s0 H0) as (E0 & _ & _ & _). destruct (b64_one s2 H2) as (_ & E3 & _ & _).
+    destruct (b64_two s0 s1 H0 H1) as [E1 _]. destruct (b64_two s1 s2 H1 H2) as [_ E2].
+    pose proof (R 0%nat ltac:(cbn; lia)) as R0. pose proof (R 1%nat ltac:(cbn; lia)) as R1. pose proof (R 2%nat ltac:(cbn; lia)) as R2.
+    cbn [nth Z.of_nat Pos.of_succ_nat Pos.succ] in R0, R1, R2.
+    cbn [length] in Hfs, Hmf, Hb |- *.
+    assert (Hn : Z.of_nat (S (S (S (length t)))) = Z.of_nat (length t) + 3) by lia. rewrite Hn.
+    assert (Hc : z2b (b2z (Z.of_nat (length t) + 3 >? 2)) = true).
+    { unfold z2b, b2z. destruct (Z.gtb_spec (Z.of_nat (length t) + 3) 2); [reflexivity|lia]. }
+    rewrite Hc. rewrite R0, R1, R2.
+    rewrite (wrapu64_small (Z.of_nat (length t) + 3)) by lia.
+    replace (Z.of_nat (length t) + 3 - 3) with (Z.of_nat (length t)) by lia.
+    rewrite !(wrapu64_small (Z.of_nat (length t))) by lia.
+    destruct (IH t ((((out ++ [q0 (schar s0)]) ++ [q1 (schar s0) (schar s1)]) ++ [q2 (schar s1) (schar s2)]) ++ [q3 (schar s2)])
+                 (i + 3) p a fs At) as (ws & Es & Em).
+    + intros k Hk. specialize (R (S (S (S k))) ltac:(cbn; lia)). replace (i + 3 + Z.of_nat k) with (i + Z.of_nat (S (S (S k)))) by lia. exact R.
+    + lia.
+    + lia.
+    + lia.
+    + exists (q0 (schar s0) :: q1 (schar s0) (schar s1) :: q2 (schar s1) (schar s2) :: q3 (schar s2) :: ws). split.
+      * rewrite Es. rewrite <- !app_assoc. reflexivity.
+      * cbn [b64_encode_raw]. rewrite E0, E1, E2, E3, Em. reflexivity.
+Qed.
+
+Theorem b64_encode_matches_source l fuel : all_lt 256 l = true -> (length l < fuel)%nat ->
+  Z.of_nat (length l) < 18446744073709551616 ->
+  exists ws, src_b64_encode fuel (arrb l) (Z.of_nat (length l)) = Some ws /\ b64_encode_raw (S (length l)) l = Ok (map Z.to_N ws).
+Proof.
+  intros A Hf Hb. unfold src_b64_encode. cbv zeta.
+  destruct (b64_loop_matches (S (length l)) l [] 0 (arrb l) 0 fuel A) as (ws & Es & Em); [|exact Hf|lia|exact Hb|].
+  - intros k _. unfold arrb. rewrite Z.add_0_l, Nat2Z.id. reflexivity.
+  - exists ws. split; [exact Es|exact Em].
+Qed.
+
+Example b64_encode_example :
+  option_map (map Z.to_N) (src_b64_encode 5 (arrb [0; 171; 255; 16]%N) 4) = Some [65; 75; 118; 47; 69; 65; 61; 61]%N.
+Proof. vm_compute. reflexivity. Qed.
